@@ -259,7 +259,12 @@ def decide(prop: str, tier: str, seed: int) -> int:
     ev = {"property_id": prop, "tier": tier, "seed": seed, "level": "proof", "coverage": cov,
           "assumptions": getattr(mod, "ASSUMPTIONS", []), "wall_s": round(wall, 2), "violations": violations}
     os.makedirs(f"{VERIF}/evidence", exist_ok=True)
-    with open(f"{VERIF}/evidence/{prop}.json", "w") as f:
+    ev_path = f"{VERIF}/evidence/{prop}.json"
+    if os.environ.get("VERIF_REPO"):
+        # a developer run against a scratch copy (mutation self-test): never overwrite the evidence of /repo
+        os.makedirs(f"{VERIF}/out", exist_ok=True)
+        ev_path = f"{VERIF}/out/evidence-scratch-{prop}.json"
+    with open(ev_path, "w") as f:
         json.dump(ev, f, indent=1, default=repr)
     ctx.cleanup()
     log(f"[{prop}] {tier}: obligations {cov['discharged']}/{cov['obligations']}, evaluations {res.evaluations} "
